@@ -39,10 +39,10 @@ def run(chk: Check) -> None:
         elif prop == "C04" and rule in ("R03.2", "R03.3", "R03.5"):
             # the table half of every pairing relies on the containment half being sound
             chk.ob(rule, construct, ok, loc, msg, facts)
-    chk.floor("R03.1", "uses of _local_uuid_cache", own.counts.get("table_uses", 0), 18)
-    chk.floor("R03.3", "attach primitives", own.counts.get("attach_primitives", 0), 4)
-    chk.floor("R03.3", "detach primitives", own.counts.get("detach_primitives", 0), 4)
-    chk.floor("R03.6", "loader registrations", own.counts.get("loader_registrations", 0), 7)
+    chk.floor("R03.1", "uses of _local_uuid_cache", own.counts.get("table_uses", 0), 12)
+    chk.floor("R03.3", "attach primitives", own.counts.get("attach_primitives", 0), 3)
+    chk.floor("R03.3", "detach primitives", own.counts.get("detach_primitives", 0), 3)
+    chk.floor("R03.6", "loader registrations", own.counts.get("loader_registrations", 0), 4)
 
     from .lookups import truthiness_safe
     truthiness_safe(chk, "R03.3")
